@@ -245,7 +245,7 @@ static bool build_case(uint64_t seed, Case &c, std::string &skip) {
     if(c.sy == SY_XER && (top_prim || rvar.chance(1, 2))) {
         Bytes var; XerVariantStats xs; xer_variant(E, rvar, var, xs, top_prim);
         E = var; c.head.set("xer_variant", "1");
-        G.add("c05.variant.xer_whitespace", xs.whitespace); G.add("c05.variant.xer_comments", xs.comments); G.add("c05.variant.xer_emptytags", xs.emptytags); G.add("c05.variant.xer_charrefs", xs.charrefs);
+        G.add("c05.variant.xer_whitespace", xs.whitespace); G.add("c05.variant.xer_comments", xs.comments); G.add("c05.variant.xer_emptytags", xs.emptytags); G.add("c05.variant.xer_charrefs", xs.charrefs); G.add("c05.variant.xer_attributes", xs.attributes);
     }
     if(c.sy == SY_DER || c.sy == SY_BER) {
         if(ber_end_of_encoding(E) != E.size()) { skip = "eoe_mismatch"; return false; }
